@@ -422,13 +422,17 @@ def decodeRec (f : Fmt) (st : St) (r : Rec) : Res (St × Dense) :=
 /-- F74: npy of int64/uint64: read back as the platform `int`/`uint`, which `binary.Read` refuses. -/
 def Excl_npyInt64 (t : Dense) : Bool := t.dt == "i64" || t.dt == "u64"
 
+/-- finding F125: `WriteCSV` prints the elements of every element type with `%v`, `ReadCSV` (`convFromStrs`) converts back
+    only to the types of `csvTypes`: a matrix of another element type (uintptr) is written and cannot be read back -/
+def Excl_csvUnreadable (t : Dense) : Bool := !csvTypes.contains t.dt && t.shape.length == 2
+
 def exclFor (f : Fmt) (t : Dense) : List String :=
   match f with
   | .gob => []
   | .npy =>
     if (npCode t.dt).isNone || t.dt == "i" || t.dt == "u" then [] else
     (if Excl_npyInt64 t then ["F74"] else [])
-  | .csv => []
+  | .csv => if Excl_csvUnreadable t then ["F125"] else []
   | .pb => []
   | .fb => []
 
